@@ -72,3 +72,117 @@ class SignUnauthorized(Contract):
 
     def x_exch(key_id, hash, g, old): return is_hex(hash) and one(g, old, su_message(key_id, hash))
     raises = PROPAGATE(x_exch, skip=[ERR_RESULT])
+
+
+# ------------------------------------------------------------------------------------------------
+# sign_authorized
+MODE = ENUM("ledger.hsm2dongle:SighashComputationMode")
+OP_PATH, OP_BTC_TX, OP_RECEIPT, OP_MERKLE, OP_SUCCESS = 0x01, 0x02, 0x04, 0x08, 0x81
+KEY_TX, KEY_RECEIPT, KEY_MERKLE = CMD_SIGN * 256 + OP_BTC_TX, CMD_SIGN * 256 + OP_RECEIPT, CMD_SIGN * 256 + OP_MERKLE
+
+
+def _flat_step(nodes, k, prev):
+    from pyvc import terms as tm
+    from pyvc.values import unhex
+    nb = unhex(tm.Nth(nodes, k))
+    return tm.Concat(prev, tm.SeqUnit(tm.Len(nb)), nb)
+
+
+# flat(nodes, k): concatenation over j < k of [len(node_j)] ++ node_j  (node_j = unhex(nodes[j]))
+from pyvc import terms as _tm
+flat = RecSpec("merkle_flat", [_tm.SeqOf(_tm.STR)], _tm.BYTES,
+               base=lambda nodes: _tm.SeqEmpty(_tm.BYTES), step=_flat_step)
+
+
+def tx_payload(btc_tx, mode_net, segwit, witness_script, outpoint_value):
+    """LE32(7+|tx|) | mode | LE16(|extradata|) | tx | extradata ; extradata = varint(|ws|) ws LE64(value) for segwit"""
+    tx = unhex(btc_tx)
+    ed = ite(segwit, varint(len(unhex(witness_script))) + unhex(witness_script) + le_bytes(outpoint_value, 8), b"")
+    return le_bytes(7 + len(tx), 4) + bytes([mode_net]) + le_bytes(len(ed), 2) + tx + ed
+
+
+@native
+def varint(ip, st, n):
+    """Bitcoin CompactSize of n (A-BTC: what bitcoin.core.VarIntSerializer.serialize produces)"""
+    from pyvc.values import to_term, as_value
+    from spec.btc import varint_term
+    return as_value("bytes", varint_term(to_term(n)))
+
+
+@contract("ledger/hsm2dongle.py", "HSM2Dongle.sign_authorized", serves=["C01", "C03", "C04", "C11", "C13"])
+class SignAuthorized(Contract):
+    self_spec = DONGLE
+    params = dict(key_id=PATH, rsk_tx_receipt=STR_, receipt_merkle_proof=LIST(STR_), btc_tx=STR_, input_index=INT_,
+                  sighash_computation_mode=MODE, witness_script=ONEOF(STR_, NONE_), outpoint_value=ONEOF(INT_, NONE_))
+    result = SIGN_RESULT
+    modifies_self = dict(last_comm_exception=OPAQUE("last_comm_exception"))
+    loop_locals = {0: dict(node_bytes=BYTES_)}
+    max_paths = 4000
+
+    def pre_path(key_id): return path_wf(key_id)
+    # what the validators establish for a well-formed request (C01's hypothesis; C03 needs it proved at the call)
+    def pre_input_index(input_index): return 0 <= input_index and input_index < 4294967296
+    def pre_hex(rsk_tx_receipt, btc_tx): return is_hex(rsk_tx_receipt) and is_hex(btc_tx)
+    def pre_segwit_fields(sighash_computation_mode, witness_script, outpoint_value):
+        if sighash_computation_mode.netvalue == 1:
+            if is_none(witness_script) or is_none(outpoint_value):
+                return False
+            return (is_hex(witness_script) and 0 <= outpoint_value and outpoint_value < 18446744073709551616
+                    and len(unhex(witness_script)) < 65000)
+        return is_none(witness_script) and is_none(outpoint_value)
+    def pre_tx_size(btc_tx): return len(unhex(btc_tx)) < 4294967289
+    requires = [pre_path, pre_input_index, pre_hex, pre_segwit_fields, pre_tx_size]
+
+    # ---- merkle proof framing loop
+    def inv_flat(i, merkle_proof_bytes, receipt_merkle_proof, g, old):
+        return (merkle_proof_bytes == bytes([len(receipt_merkle_proof)]) + flat(receipt_merkle_proof, i)
+                and len(receipt_merkle_proof) <= 255)
+    invariants = {0: [inv_flat]}
+
+    # ---- C01: what the device ends up holding
+    def first_message(key_id, input_index, g, old):
+        """first APDU of the exchange: path and input index"""
+        return (len(g.log) > len(old.g.log)
+                and g.log[len(old.g.log)] == apdu_of(CMD_SIGN, bytes([OP_PATH]) + pathbin(key_id) + le_bytes(input_index, 4)))
+    def streams_are_prefixes(btc_tx, sighash_computation_mode, witness_script, outpoint_value, rsk_tx_receipt,
+                             receipt_merkle_proof, g, old):
+        seg = sighash_computation_mode.netvalue == 1
+        if seg:
+            payload = tx_payload(btc_tx, 1, True, witness_script, outpoint_value)
+        else:
+            payload = tx_payload(btc_tx, 0, False, "", 0)
+        n = len(receipt_merkle_proof)
+        return (prefix_of(sel(g.stream, KEY_TX)[len(sel(old.g.stream, KEY_TX)):], payload)
+                and prefix_of(sel(g.stream, KEY_RECEIPT)[len(sel(old.g.stream, KEY_RECEIPT)):], unhex(rsk_tx_receipt))
+                and implies(n <= 255,
+                            prefix_of(sel(g.stream, KEY_MERKLE)[len(sel(old.g.stream, KEY_MERKLE)):],
+                                      bytes([n]) + flat(receipt_merkle_proof, n))))
+    def success(result, btc_tx, sighash_computation_mode, witness_script, outpoint_value, rsk_tx_receipt,
+                receipt_merkle_proof, g, old):
+        if result[0]:
+            seg = sighash_computation_mode.netvalue == 1
+            if seg:
+                payload = tx_payload(btc_tx, 1, True, witness_script, outpoint_value)
+            else:
+                payload = tx_payload(btc_tx, 0, False, "", 0)
+            n = len(receipt_merkle_proof)
+            return (sel(g.stream, KEY_TX) == sel(old.g.stream, KEY_TX) + payload
+                    and sel(g.stream, KEY_RECEIPT) == sel(old.g.stream, KEY_RECEIPT) + unhex(rsk_tx_receipt)
+                    and n <= 255
+                    and sel(g.stream, KEY_MERKLE) == sel(old.g.stream, KEY_MERKLE) + bytes([n]) + flat(receipt_merkle_proof, n)
+                    and ok(g) and g.last_resp[2] == OP_SUCCESS and der_ok(g.last_resp[3:])
+                    and result[1]._r == hexs(der_r(g.last_resp[3:])) and result[1]._s == hexs(der_s(g.last_resp[3:])))
+        return True
+    # ---- C04: failures
+    def failure_codes(result, g, old):
+        if not result[0]:
+            c = result[1]
+            return (sign_code_member(c) and g.nx >= old.g.nx + 1 and (ok(g) or classify(g) == K_ERR)
+                    and implies(classify(g) == K_ERR and sign_named(True, g.last_op, g.last_sw) == -103, c == -1)
+                    and implies(classify(g) == K_ERR and sign_named(True, g.last_op, g.last_sw) == -102, c == -2)
+                    and implies(classify(g) == K_ERR and sign_named(True, g.last_op, g.last_sw) == -101, c == -3 or c == -4))
+        return True
+    ensures = [first_message, streams_are_prefixes, success, failure_codes]
+
+    def x_at_least_one(g, old): return g.nx >= old.g.nx + 1
+    raises = PROPAGATE(x_at_least_one, skip=[ERR_RESULT])
